@@ -43,6 +43,10 @@ def buildAdj (knn : List (List Nat)) : Array (List Nat) :=
 
 def adjFn (a : Array (List Nat)) : Nat → List Nat := fun v => a.getD v []
 
+/-- every neighbour list stays inside `0..n-1` (decidable; the driver evaluates it) -/
+def closedB (n : Nat) (adj : Nat → List Nat) : Bool :=
+  (List.range n).all fun u => (adj u).all fun w => decide (w < n)
+
 /-- enough fuel for a complete traversal: one step per node visit plus one per pushed entry -/
 def dfsFuel (n : Nat) (adj : Nat → List Nat) : Nat :=
   (((List.range n).map fun u => 1 + (adj u).length).sum) + 2
